@@ -362,6 +362,11 @@ template <class V> struct IdxGuard
       for(int i = pad + cap; i < cap + 2 * pad; i++) if(buf[(size_t)i] != CAN) c++;
       return c;
    }
+   void reset()
+   {
+      for(int i = 0; i < pad; i++) buf[(size_t)i] = CAN;
+      for(int i = pad + cap; i < cap + 2 * pad; i++) buf[(size_t)i] = CAN;
+   }
    ~IdxGuard()
    {
       if(v.num > origLen) v.num = origLen;
@@ -1056,7 +1061,9 @@ static void caseC10(long long k, Rng& g)
       }
       // exact B^-1 a on the old matrix: the pivot element must be well away from the zero tolerance (ratio test guarantees this in the simplex)
       std::vector<Q> alpha = E.solve(ent.q, false);
-      if(qabs(alpha[(size_t)r]) < qd(1e-9) || qabs(alpha[(size_t)r]) < qd(1e-7) * vinf(alpha))
+      // numerically acceptable pivot in the units the factorisation sees (the simplex ratio tests enforce a relative pivot stability, too):
+      // a product-form eta with |alpha|_max / |pivot| = 1e7 amplifies rounding errors by 1e7 per step whatever the code does
+      if(qabs(alpha[(size_t)r]) < qd(1e-9) || qabs(alpha[(size_t)r]) < qd(1e-3) * vinf(alpha))
       {
          S.count("c10.update.pivot_too_small_skipped");
          continue;
@@ -1375,8 +1382,8 @@ static void caseC11(long long k, Rng& g)
    {
       M = genBase(g, g.pick(std::vector<std::string>({"random-sparse", "triangular", "singletons", "dense-bump"})), n, ent);
       std::string kind = g.pick(SINGKINDS);
-      singularize(g, M, kind);
-      if(n >= 2 && g.chance(0.6))
+      if(n < 2 || g.chance(0.5)) singularize(g, M, kind);
+      else
       {
          // non-dyadic dependence: column b = (p/q) column a [+ (r/s) column c], q, s in {3, 7, 10, 11}.  The matrix is exactly singular, but
          // rounding its entries to double destroys the dependence
@@ -1464,8 +1471,20 @@ static void caseC11(long long k, Rng& g)
    }
    // ---- solves: every public overload of SLUFactorRational::solveRight / solveLeft (+ the 4update right solves without update)
    typedef IdxGuard<SSVectorRational> GR;
+   // the factorisation's own work vectors whose index arrays serve as heaps / index lists of the sparse solves (declared after F, so they
+   // are restored before F is destroyed; `eta` is not guarded because setup_and_assign() re-allocates its index array)
+   GR gIntS(F.ssvec, F.ssvec.len), gIntF(F.forest, F.forest.len);
    auto ovr = [&](const GR & gd, const std::string & variant, const char* which)
    {
+      for(GR* gi : {&gIntS, &gIntF})
+      {
+         int b = gi->below(), a = gi->above();
+         if(a || b)
+         {
+            S.viol("C11:" + variant + ":index-array-overrun.internal:{utype=" + ut + "}", std::to_string(b) + " store(s) below and " + std::to_string(a) + " above the index array of the factorisation's own work vector " + (gi == &gIntS ? "ssvec" : "forest") + " (capacity " + std::to_string(gi->cap) + ", dim " + std::to_string(n) + ")", C.replay());
+            gi->reset();
+         }
+      }
       S.count("c11.index_guard.checked");
       int b = gd.below(), a = gd.above();
       if(a || b) S.viol("C11:" + variant + ":index-array-overrun." + which + ":{utype=" + ut + "}", std::to_string(b) + " store(s) below and " + std::to_string(a) + " above the caller's index array of " + which + " (SSVectorRational(" + std::to_string(n) + "), family " + fam + ")", C.replay());
